@@ -661,8 +661,8 @@ class Interp:
                 raise ValueError
             if isinstance(n, ast.Call) and isinstance(n.func, (ast.Name, ast.Attribute)) and len(n.args) > 1 and not n.keywords \
                     and all(isinstance(a, ast.Constant) for a in n.args) \
-                    and (n.func.id if isinstance(n.func, ast.Name) else n.func.attr) == "itemgetter":
-                return ("itemgetter", tuple(a.value for a in n.args))
+                    and (n.func.id if isinstance(n.func, ast.Name) else n.func.attr) in ("itemgetter", "attrgetter"):
+                return ((n.func.id if isinstance(n.func, ast.Name) else n.func.attr), tuple(a.value for a in n.args))
             if isinstance(n, ast.Tuple):
                 return ("tuple", tuple(ev(e) for e in n.elts))
             if isinstance(n, ast.List):
@@ -1020,6 +1020,10 @@ class Interp:
             return mk_cond(base[2][0], self.get_item(st, base[2][0], key), self.get_item(st, base[2][1], key))
         if base[0] == "call" and base[1] in ("re.match", "re.search", "re.fullmatch") and is_const(key):
             return ("call", ".group", (base, key), ())       # m[k] is m.group(k)
+        if base[0] == "elem" and is_const(key):
+            it_ = self.loops.get(base[1], {}).get("iter")
+            if isinstance(it_, tuple) and it_ and it_[0] == "call" and it_[1] == "re.finditer":
+                return ("call", ".group", (base, key), ())
         o_ = self.obj(base)
         if isinstance(o_, HList) and is_const(key) and isinstance(key[1], int) and all(sg[0] == "e" for sg in o_.segs) \
                 and not getattr(o_, "dirty", False) and -len(o_.segs) <= key[1] < len(o_.segs):
@@ -1111,6 +1115,8 @@ class Interp:
     def _comp_rec(self, st, n, gens, i, tree, kind):
         g = gens[i]
         it = self.ev(st, g.iter, tree)
+        if isinstance(self.obj(it), HGen) and self.obj(it).fi is not None and self.obj(it).qualname not in self.no_fuse:
+            it = self.force(it, st, tree, n)         # a comprehension over a generator consumes it
         # a generator over a small constant table is unrolled: one group of elements per table entry, in order
         elems = self._unroll_elems(it)
         if kind == "dict" and elems is not None and 0 < len(elems) <= 64 and len(gens) == 1 and not g.ifs:
@@ -1283,6 +1289,8 @@ class Interp:
             return self.apply(st, f[1], list(f[2]) + list(args), kw2, n, tree)
         if k == "attrgetter" and len(args) == 1 and isinstance(f[1], str):
             return self.get_attr(st, args[0], f[1], n, tree)
+        if k == "attrgetter" and len(args) == 1 and isinstance(f[1], tuple):
+            return ("tuple", tuple(self.get_attr(st, args[0], x, n, tree) for x in f[1]))
         if k == "itemgetter" and len(args) == 1:
             if isinstance(f[1], tuple):
                 return ("tuple", tuple(self.get_item(st, args[0], const(x)) for x in f[1]))
@@ -1309,6 +1317,13 @@ class Interp:
                 return ("partial", args[0], tuple(args[1:]), tuple(sorted(kwargs.items())))
             if nm in ("operator.attrgetter", "operator.itemgetter") and len(args) == 1 and is_const(args[0]) and not kwargs:
                 return (nm.rsplit(".", 1)[1], args[0][1])
+            if nm in ("operator.attrgetter", "operator.itemgetter") and len(args) > 1 and all(is_const(a) for a in args) and not kwargs:
+                return (nm.rsplit(".", 1)[1], tuple(a[1] for a in args))
+            if nm in ("operator.add", "operator.concat") and len(args) == 2 and not kwargs:
+                la, lb = self.obj(args[0]), self.obj(args[1])
+                if isinstance(la, HList) or isinstance(lb, HList):
+                    return self.new_list([("s", args[0]), ("s", args[1])], n, tree)
+                return self.ev_BinOp_terms("Add", args[0], args[1], n)
             if nm in ("collections.deque",) and not args and not kwargs:
                 return self.new_list([], n, tree)
             if nm == "collections.defaultdict":
@@ -1363,6 +1378,8 @@ class Interp:
                 return self.new_list([("s", recv)], n) if not isinstance(o, HDict) else self.new_dict([("**", recv)], n, tree)
             if name == "format":
                 return ("call", ".format", (recv,) + tuple(args), tuple(sorted(kwargs.items())))
+            if name in ("start", "end", "span") and len(args) == 1 and is_const(args[0], 0) and not kwargs:
+                args = []           # m.start(0) is m.start()
             if name == "group" and len(args) > 1 and not kwargs:
                 return ("tuple", tuple(("call", ".group", (recv, a), ()) for a in args))
             tree.append(("mcall", name, recv, tuple(args), line))
@@ -1376,7 +1393,7 @@ class Interp:
     def _callable_known(self, f) -> bool:
         if isinstance(f, tuple) and f and f[0] == "builtin" and f[1] in ("str", "int", "len", "bool", "repr"):
             return True
-        if isinstance(f, tuple) and f and f[0] == "extname" and f[1] in ("re.escape",):
+        if isinstance(f, tuple) and f and f[0] == "extname" and f[1] in ("re.escape", "operator.add", "operator.concat"):
             return True
         return isinstance(f, tuple) and bool(f) and f[0] in ("func", "bound", "closure", "lambda", "partial", "attrgetter", "itemgetter", "class") \
             and (f[0] != "lambda" or len(f) > 3)
@@ -1399,6 +1416,9 @@ class Interp:
             return ("p_starmap", list(args))
         if name == "functools.reduce" and not kw and len(args) == 3 and self._callable_known(args[0]):
             return ("p_reduce", list(args))
+        if name == "functools.reduce" and not kw and len(args) == 2 and self._callable_known(args[0]) \
+                and (args[1][0] == "tuple" or isinstance(self.obj(args[1]), HList)):
+            return ("p_reduce_seq", list(args))
         if name == "itertools.accumulate" and len(args) in (1, 2) and "initial" in kw and set(kw) <= {"initial", "func"}:
             fn = args[1] if len(args) == 2 else kw.get("func")
             if fn is not None and self._callable_known(fn):
@@ -1730,6 +1750,13 @@ class Interp:
                 self._acc(out, o)
                 out.live = o.live
                 return out
+            if isinstance(s, ast.Try):
+                lowered = self._lower_lookup_try(s)
+                if lowered is not None:
+                    o = self.exec_block(lowered + list(stmts[i:]), out.live, tree)
+                    self._acc(out, o)
+                    out.live = o.live
+                    return out
             if isinstance(s, ast.Match):
                 lowered = self._lower_match(s)
                 if lowered is not None:
@@ -1847,6 +1874,30 @@ class Interp:
         r = combine(ot, acc)
         r.live = o2.live
         return r
+
+    def _lower_lookup_try(self, s: ast.Try):
+        """``try: v = TABLE[key] / except KeyError: A / else: B`` asks for forgiveness what ``if key in TABLE: v = TABLE[key]; B
+        / else: A`` asks for permission: the same decision, lowered to the latter."""
+        cached = getattr(s, "_lookup_lowered", None)
+        if cached is not None:
+            return cached or None
+        s._lookup_lowered = []
+        if s.finalbody or len(s.handlers) != 1 or len(s.body) != 1:
+            return None
+        h = s.handlers[0]
+        if not (isinstance(h.type, ast.Name) and h.type.id == "KeyError" and h.name is None):
+            return None
+        st0 = s.body[0]
+        val = st0.value if isinstance(st0, (ast.Assign, ast.AnnAssign, ast.Return, ast.Expr)) else None
+        if not (isinstance(val, ast.Subscript) and not isinstance(val.slice, ast.Slice)
+                and isinstance(val.value, (ast.Name, ast.Attribute)) and isinstance(val.slice, (ast.Name, ast.Constant, ast.Attribute))):
+            return None
+        test = ast.Compare(left=val.slice, ops=[ast.In()], comparators=[val.value])
+        syn = ast.If(test=test, body=list(s.body) + list(s.orelse), orelse=list(h.body) or [ast.Pass()])
+        ast.copy_location(syn, s)
+        ast.fix_missing_locations(syn)
+        s._lookup_lowered = [syn]
+        return [syn]
 
     def _lower_match(self, s: ast.Match):
         """[subject assignment, if/elif chain] for a match statement whose patterns are literals, singletons, alternatives of
